@@ -333,7 +333,9 @@ async fn scenario(a: &ShardArgs, idx: u64) {
             cfg.class_zero[t] = r.chance(2, 3);
         }
     }
-    cfg.unsolicited = false;
+    // sometimes the outstation starts with its null unsolicited response outstanding: the first READs arrive during
+    // that confirm wait and are deferred (no class is ever enabled, so nothing else is sent unsolicited)
+    cfg.unsolicited = r.chance(1, 6);
     let with_events = r.chance(1, 4);
     // database layout: sparse and dense index sets
     let mut layout: Vec<(usize, u16, u8)> = vec![];
@@ -377,7 +379,14 @@ async fn scenario(a: &ShardArgs, idx: u64) {
         mirror.insert((*t, *i), pv);
     }
     settle().await;
-    let _ = sim.collect();
+    // sequence number of the null unsolicited response that awaits its confirm, if any
+    let mut null_unsol: Option<u8> = sim
+        .collect()
+        .iter()
+        .filter_map(|x| x.fragment())
+        .filter(|f| f.len() >= 2 && f[1] == ra::F_UNSOL_RESPONSE)
+        .map(|f| f[0] & 0x0F)
+        .last();
     let _ = sim.mock.take();
     let mut hist: Vec<String> = vec![];
     let viol = |rule: &str, sig: &str, why: String, hist: &Vec<String>| {
@@ -461,7 +470,35 @@ async fn scenario(a: &ShardArgs, idx: u64) {
             hex(&rd)
         ));
         out::eval(1);
-        let rx = sim.request(&rd).await;
+        let rx = if let Some(useq) = null_unsol.take() {
+            // deferred: an earlier READ with other headers arrives first and is superseded by this one; the answer comes
+            // once the unsolicited confirm wait is over, and it is the answer to the last READ only
+            let mut early = vec![];
+            if r.chance(2, 3) {
+                let decoy = ra::B::request(ra::F_READ, (seq + 15) & 15)
+                    .all(60, 1)
+                    .all(30, 0)
+                    .all(1, 0)
+                    .done();
+                hist.push(format!("t={} -> earlier READ {} (to be superseded while deferred)", sim.now(), hex(&decoy)));
+                early.extend(sim.request(&decoy).await);
+                out::count("deferred_read_superseded", 1);
+            }
+            early.extend(sim.request(&rd).await);
+            if early.iter().any(|x| x.fragment().map(|f| f.len() >= 2 && f[1] == ra::F_RESPONSE).unwrap_or(false)) {
+                viol(
+                    "deferred_read_answered_early",
+                    "unsol-wait",
+                    "a READ received during the unsolicited confirm wait was answered before the wait ended".into(),
+                    &hist,
+                );
+            }
+            hist.push(format!("t={} -> unsolicited CONFIRM seq={useq}", sim.now()));
+            out::count("reads_deferred_behind_null_unsolicited", 1);
+            sim.request(&ra::B::confirm(useq, true).done()).await
+        } else {
+            sim.request(&rd).await
+        };
         let mut frags: Vec<Vec<u8>> = vec![];
         let mut cur: Option<Vec<u8>> = None;
         for x in &rx {
